@@ -925,6 +925,8 @@ pub(super) struct HintingSink<'a, S> {
     /// Most recent line_to. First two elements are coords in character
     /// space and the last two are in device space.
     pending_line: Option<[Fixed; 4]>,
+    /// Current point in character space.
+    current_point: [Fixed; 2],
 }
 
 impl<'a, S: CommandSink> HintingSink<'a, S> {
@@ -940,6 +942,7 @@ impl<'a, S: CommandSink> HintingSink<'a, S> {
             map: HintMap::new(scale),
             start_point: None,
             pending_line: None,
+            current_point: [Fixed::ZERO; 2],
         }
     }
 
@@ -1055,12 +1058,20 @@ impl<S: CommandSink> CommandSink for HintingSink<'_, S> {
     fn move_to(&mut self, x: Fixed, y: Fixed) {
         self.maybe_close_subpath();
         self.start_point = Some([x, y]);
+        self.current_point = [x, y];
         let x = self.scale(x);
         let y = self.hint(y);
         self.sink.move_to(x, y);
     }
 
     fn line_to(&mut self, x: Fixed, y: Fixed) {
+        // FreeType ignores zero-length lines in character space unless a
+        // new hint mask is pending.
+        // See <https://gitlab.freedesktop.org/freetype/freetype/-/blob/80a507a6b8e3d2906ad2c8ba69329bd2fb2a85ef/src/psaux/pshints.c#L1745>
+        if self.current_point == [x, y] && self.map.is_valid {
+            return;
+        }
+        self.current_point = [x, y];
         self.flush_pending_line();
         let ds_x = self.scale(x);
         let ds_y = self.hint(y);
@@ -1069,6 +1080,7 @@ impl<S: CommandSink> CommandSink for HintingSink<'_, S> {
 
     fn curve_to(&mut self, cx1: Fixed, cy1: Fixed, cx2: Fixed, cy2: Fixed, x: Fixed, y: Fixed) {
         self.flush_pending_line();
+        self.current_point = [x, y];
         let cx1 = self.scale(cx1);
         let cy1 = self.hint(cy1);
         let cx2 = self.scale(cx2);
